@@ -4,6 +4,7 @@ From GM Require Import Proofs.RTac Model.Pbc.
 Import ListNotations.
 Local Open Scope R_scope.
 
+Ltac dv t := let x := fresh "x" in let y := fresh "y" in let z := fresh "z" in destruct t as [x y z].
 Ltac punfold := cbv [madj minv vround pbc_frac pbc_wrap mdiag zvec lattice] in *.
 
 Lemma vecm_vadd (a b : V3 R) M : vecm (vadd a b) M = vadd (vecm a M) (vecm b M).
@@ -13,9 +14,9 @@ Proof. destruct a, b, M as [[? ? ?] [? ? ?] [? ? ?]]. runfold. apply V3_eq; simp
 Lemma vecm_vneg (a : V3 R) M : vecm (vneg a) M = vneg (vecm a M).
 Proof. destruct a, M as [[? ? ?] [? ? ?] [? ? ?]]. runfold. apply V3_eq; simpl; ring. Qed.
 Lemma vsub_swap (a b : V3 R) : vsub a b = vneg (vsub b a).
-Proof. destruct a, b. runfold. apply V3_eq; simpl; ring. Qed.
+Proof. dv a; dv b. runfold. apply V3_eq; simpl; ring. Qed.
 Lemma vnorm_vneg (a : V3 R) : vnorm (vneg a) = vnorm a.
-Proof. destruct a. runfold. f_equal. ring. Qed.
+Proof. dv a. runfold. f_equal. ring. Qed.
 
 (* the inverse as a total function (meaningful when the determinant is not 0) *)
 Definition minvR (m : M3 R) : M3 R :=
